@@ -5,7 +5,7 @@ import json, os, re, shutil, glob
 SRC = '/tmp/seed_out'
 DST = '/verif/seeded'
 NEEDS = json.load(open('/verif/tools/seed_needs.json'))
-for d in sorted(glob.glob(SRC + '/C??/[ab]') + glob.glob(SRC + '/C??2/[ab]') + glob.glob(SRC + '/C??3/[ab]')):
+for d in sorted(glob.glob(SRC + '/C??/[ab]') + glob.glob(SRC + '/C??2/[ab]') + glob.glob(SRC + '/C??3/[ab]') + glob.glob(SRC + '/C??4/[ab]')):
     pid, x = d.split('/')[-2:]
     cf = os.path.join(d, 'confirm.json')
     if not os.path.exists(cf):
@@ -26,7 +26,7 @@ for d in sorted(glob.glob(SRC + '/C??/[ab]') + glob.glob(SRC + '/C??2/[ab]') + g
     pid = pid[:3]
     out = os.path.join(DST, sid)
     os.makedirs(out, exist_ok=True)
-    for f in ('patch.diff', 'demo.py', 'notes.md'):
+    for f in ('patch.diff', 'demo.py', 'notes.md', 'notes.txt'):
         if os.path.exists(os.path.join(d, f)):
             shutil.copy(os.path.join(d, f), os.path.join(out, f))
     det = {}
